@@ -102,7 +102,7 @@ impl Matcher for FileSystemMatcher {
                     "Error getting filesystem type for {}",
                     file_info.path().to_string_lossy()
                 )
-                .unwrap();
+                .ok();
 
                 false
             }
